@@ -152,12 +152,18 @@ fn v6_classes() -> Vec<Ipv6Addr> {
         "::1", "::", "::ffff:1.2.3.4", "::ffff:255.255.255.255", "fe80::1", "fe80::dead:beef:1:2", "fc00::1", "fd12:3456:789a::1",
         "2001:db8::1", "2001:4860:4860::8888", "2a00:1450:4001:81b::200e", "ff02::1", "ffff:ffff:ffff:ffff:ffff:ffff:ffff:ffff",
         "64:ff9b::102:304", "2002:102:304::1", "1:2:3:4:5:6:7:8",
+        "::2", "fe80::1:2", "fe80::a:b:c", "2001:db8::", "2001:db8:1::1", "2001:db8:0:1:1:1:1:1", "fd00::", "fc00::", "ff02::1:ff00:1",
+        "2600::1", "2a00::", "::1:0:0:1", "100::1", "2001::1",
+        "2001:db8:1:2:3:4:5:6", "2001:db8::1:2:3", "2001:db8:a:b:c::", "2001:db8:0:0:1:0:0:1", "2001:db8:ffff:ffff:ffff:ffff:ffff:ffff",
+        "fe80::1:2:3:4", "fe80:0:0:1::1", "fe80::ffff:ffff:ffff:ffff", "::1:2", "::ffff:0:1", "0:0:1::", "1::", "1::1", "1:2::3:4",
+        "fd00::1:2:3:4", "fc00:1:2:3:4:5:6:7", "ff0e::1:2:3", "ff01::", "2a00:1:2:3:4:5:6:0", "2a00:0:0:0:1:2:3:4",
     ]
     .iter()
     .filter_map(|s| s.parse().ok())
     .collect()
 }
 
+// (v6_classes is iterated with every edge port)
 const EDGE_PORTS: [u16; 15] = [0, 1, 2, 79, 80, 443, 1023, 1024, 9000, 32767, 32768, 49151, 49152, 65534, 65535];
 
 async fn gate_probe(address: &str) -> Result<(usize, usize), String> {
